@@ -55,8 +55,7 @@ func (f *OrefaFile) Chdir() error {
 	}
 
 	// the current directory is always an absolute path.
-	absPath, _ := f.vfs.Abs(f.name)
-	_ = f.vfs.SetCurDir(absPath)
+	_ = f.vfs.SetCurDir(f.absPath)
 
 	return nil
 }
